@@ -1,9 +1,9 @@
 """C02 — no lost, early or duplicate wake-up of a future's waiters (future.h, awaiter.h)."""
 from props import cellcommon
 RULE = ("part ctl_cell: controlled schedules (real threads, one runnable at a time, yield at every COCLS_VERIF_POINT) of 0-2 resolvers "
-        "(value / exception / drop / move-then-destroy / completion of an async coroutine by co_return or by exception) plus the final "
+        "(value / exception / drop / move-then-destroy incl. death by stack unwinding / completion of an async coroutine by co_return or by exception / a coroutine doing co_await promise(v)) plus the final "
         "destructor of the shared promise against 1-3 waiters of every kind (coroutine co_await f, thread in sync()+value(), callback awaiter "
-        "whose context deletes itself, thread in has_value(), coroutine co_await f.has_value()), value types int, void, unique_ptr<int>, long&, "
+        "whose context deletes itself, thread in has_value(), coroutine co_await f.has_value(), call_fn_future_awaiter), every 6th case 4-6 coroutine waiters against a handle-popping resolver; value types int, void, unique_ptr<int>, long&, "
         "instance-counted; random, bursty and last-first schedules; thorough adds EVERY schedule of 2 waiters (all 15 kind pairs) x 1 resolver "
         "(7 kinds incl. none = destructor resolves), enumerated by the extracted model (cell_enum). part stress_cell: the same cell under real "
         "uncontrolled threads (3000 / 30000 trials per configuration, really blocking waiters), oracle = counters lost/dup/wrong/early all zero. "
